@@ -186,20 +186,20 @@ def nontrivial_c04(t):
 
 def cases_c06(rng, thorough):
     cases = []
-    preds = [('divc', 2), ('modc', 2), ('modc', 3)]
+    preds = [('divc', 2), ('modc', 2), ('modc', 3), ('noneIf', 1)]   # noneIf: None as a predicate value
     variants = [None, 'bigint', 'tuple', 'str']
     maxlen = 6 if thorough else 5
     for (f, c) in preds:
         for xs in seqs(range(4), maxlen):
             if len(xs) == maxlen and not thorough and rng.random() < 0.5:
                 continue
-            cases.append(mux_case([G.op_split(f, c, [], rng.choice(variants))],
+            cases.append(mux_case([G.op_split(f, c, [], None if f == 'noneIf' else rng.choice(variants))],
                                   G.key_stream(rng.choice([0, 4]), G.ints(xs))))
     for _ in range(300 if thorough else 80):
         f, c = rng.choice(preds)
         inner = rng.choice([[], [G.op_simple('to_list')], [{'op': 'count', 'reduce': True}],
                             G.gen_pipe(rng, 'int', 2, 0)[0]])
-        sp = G.op_split(f, c, inner, rng.choice(variants))
+        sp = G.op_split(f, c, inner, None if f == 'noneIf' else rng.choice(variants))
         shape = rng.random()
         if shape < 0.4:
             pipe = [sp]
@@ -395,6 +395,14 @@ def cases_c09(rng, thorough):
         streams = [G.key_stream(0, G.ints([1, 2][:max(minlen, 2)])), G.key_stream(3, G.ints([2]))]
         for src in G.all_interleavings(streams, cap=None if thorough else 12, rng=rng):
             cases.append(mux_case([op], src))
+        # a lifetime ended by an error event of the source, then the same key again
+        for _ in range(6 if thorough else 2):
+            a = G.ints([rng.randint(-2, 3) for _ in range(rng.randint(max(1, minlen), 4))])
+            b = G.ints([rng.randint(-2, 3) for _ in range(rng.randint(max(1, minlen), 4))])
+            streams = [G.failing_key_stream(0, a, b)]
+            if rng.random() < 0.5:
+                streams.append(G.key_stream(3, G.ints([rng.randint(0, 3) for _ in range(rng.randint(minlen, 3))])))
+            cases.append(mux_case([op], rng.choice(G.all_interleavings(streams, cap=20, rng=rng))))
         # inside windows and groups (seed per lifetime)
         for _ in range(12 if thorough else 3):
             parent = rng.choice([lambda inn: G.op_roll(2, 2, inn), lambda inn: G.op_roll(3, 1, inn),
@@ -488,14 +496,22 @@ def cases_c11(rng, thorough):
         [G.op_group_by('modc', 2, [G.op_scan('add', I(0))])],
         [G.op_tee('zip', [[G.op_scan('add', I(0))], [{'op': 'count', 'reduce': False}]])],
         [G.op_time_split(3, -1, False, True, [G.op_simple('to_list')])],
+        [G.op_time_split(-1, -1, True, True, [G.op_simple('to_list')])],
+        [G.op_time_split(3, 2, True, False, [G.op_simple('to_list')])],
+        [G.op_time_split(-1, 2, True, True, [{'op': 'count', 'reduce': True}])],
+        [G.op_tee('zip', [[G.op_filter('even')], []])],
+        [G.op_tee('zip', [[G.op_simple('last')], [G.op_simple('first')]])],
+        [G.op_tee('zip', [[G.op_roll(3, 3, [G.op_agg('sum', True)])], [G.op_roll(2, 2, [G.op_agg('sum', True)])]])],
+        [G.op_tee('combine_latest', [[G.op_agg('max', True)], [G.op_map('addc', 1)]])],
         [G.op_simple('take', n=2), G.op_simple('to_list')],
         [G.op_simple('first'), G.op_simple('last')],
     ]
     for pipe in ded:
         for _ in range(10 if thorough else 4):
             if pipe[0]['op'] == 'time_split':
-                lts = [(0, ts_items([(rng.choice([0, 1, 2, 3]), False)
-                                     for _ in range(rng.randint(0, 8))]))]
+                cl = pipe[0]['closing']['n'] != 'none'
+                lts = [(idx, ts_items([(rng.choice([0, 1, 2, 3]), cl and rng.random() < 0.4)
+                                       for _ in range(rng.randint(0, 8))])) for idx in rng.sample([0, 2], rng.choice([1, 2]))]
             else:
                 lts = rand_lifetimes(rng, rng.choice([1, 2]), 8, vals=range(5))
             cases.append(mux_case(pipe, G.schedule(rng, lts)))
@@ -507,7 +523,7 @@ def cases_c11(rng, thorough):
 
 def relevant_c11(n):
     return n.endswith('-timing') or n.endswith('-child-item-step') or \
-        n.endswith('-child-close-step') or n == 'root-demux-output'
+        n.endswith('-child-close-step') or n.endswith('-child-create-step') or n == 'root-demux-output'
 
 
 def nontrivial_c11(t):
@@ -582,6 +598,10 @@ def cases_c13(rng, thorough):
         pipe = [G.op_map('addc', 0), fail] + ([h, G.op_map('mulc', 2)] if h else [])
         cases.append(src_case(pipe, G.ints([rng.choice([1, 2, 3]) for _ in range(rng.randint(0, 7))]),
                               root='multiplex'))
+    # the dead-letter observable may be subscribed after the data pipeline (hot source)
+    for c in cases:
+        if any(o['op'] == 'router' for o in c['pipe']) and rng.random() < 0.5:
+            c['dl_late'] = True
     # starmap on pairs
     for hname, hk in handlers[1:]:
         for _ in range(10 if thorough else 3):
@@ -682,6 +702,7 @@ REUSING = lambda rng: [
     lambda inn: G.op_roll(3, 1, inn), lambda inn: G.op_roll(3, 2, inn), lambda inn: G.op_roll(1, 1, inn),
     lambda inn: G.op_roll(2, 3, inn),
     lambda inn: G.op_split('divc', 2, inn), lambda inn: G.op_split('modc', 2, inn),
+    lambda inn: G.op_split('noneIf', 1, inn), lambda inn: G.op_group_by('noneIf', 2, inn),
     lambda inn: G.op_group_by('modc', 2, inn),
     lambda inn: G.op_group_by('modc', 2, [G.op_roll(2, 2, inn)]),
     lambda inn: G.op_roll(4, 4, [G.op_group_by('modc', 2, inn)]),
@@ -705,6 +726,15 @@ def cases_c02(rng, thorough):
                 else:
                     lts = rand_lifetimes(rng, rng.choice([1, 2]), 10, vals=range(5), reuse=0.3)
                     cases.append(mux_case([parent(inner)], G.schedule(rng, lts)))
+    # a lifetime ended by an error event of the source, then the same key again
+    for inner in STATEFUL():
+        if inner[0]['op'] in ('tee', 'group_by', 'roll', 'split', 'mean'):
+            continue
+        for _ in range(4 if thorough else 1):
+            a = G.ints([rng.randint(-1, 3) for _ in range(rng.randint(1, 4))])
+            b = G.ints([rng.randint(-1, 3) for _ in range(rng.randint(1, 4))])
+            streams = [G.failing_key_stream(0, a, b), G.key_stream(2, G.ints([1, 2]))]
+            cases.append(mux_case(inner, rng.choice(G.all_interleavings(streams, cap=20, rng=rng))))
     # time_split parents
     for inner in STATEFUL():
         pairs_ok = inner[0]['op'] in ('first', 'last', 'take', 'lag', 'to_list', 'count', 'batch',
@@ -810,6 +840,47 @@ def extra_c10(V, rng, thorough, stats):
                 continue            # RxPY raises on an empty sequence by design
             cases.append(([op], list(xs)))
     judge_plain(V, 'C10', plain_sem_traces(cases), stats)
+
+
+def extra_c09(V, rng, thorough, stats):
+    """plain code path: the same operator objects subscribed by several sources at once
+    (and one subscription disposed mid-stream): every subscription folds from its own seed"""
+    traces = []
+    ops = [o for o in scan_ops() if o['op'] not in ('dist', 'to_array')
+           and not (o['op'] == 'scan' and o['f']['n'] == 'failAdd')]    # a raising accumulator ends a plain stream
+    for op in ops:
+        minlen = 1 if (op['op'] == 'mean' and op.get('reduce')) else 0
+        for _ in range(6 if thorough else 2):
+            n = rng.choice([2, 2, 3])
+            streams = [G.ints([rng.randint(-2, 3) for _ in range(rng.randint(max(minlen, 1), 6))])
+                       for _ in range(n)]
+            schedule = [i for i in range(n) for _ in streams[i]]
+            rng.shuffle(schedule)
+            disp = rng.choice([None, None, 1, 2])
+            res = M.run_plain_shared([op], streams, schedule, dispose_first_after=disp)
+            groups = []
+            for i, r in enumerate(res):
+                if r['disposed']:
+                    continue
+                groups.append({'items': streams[i], 'mux': [], 'muxerr': 0,
+                               'plain': [o['v'] for o in r['out']], 'plainend': r['end'],
+                               'plainerr': 0 if r['end'] != 'error' else max(1, r['endstep'])})
+            traces.append({'pipe': [op], 'modeled': True, 'oracle': 'plain-sem', 'groups': groups})
+        # one piped observable, a second subscriber arriving mid-stream
+        for _ in range(6 if thorough else 2):
+            items = G.ints([rng.randint(-2, 3) for _ in range(rng.randint(max(minlen, 2), 7))])
+            k = rng.randint(1, len(items) - (1 if minlen else 0))
+            da = rng.choice([None, None, rng.randint(0, len(items))])
+            res = M.run_plain_late_subscriber([op], items, k, dispose_first_at=da)
+            groups = []
+            for i, (r, its) in enumerate(zip(res, (items, items[k:]))):
+                if r['disposed']:
+                    continue
+                groups.append({'items': its, 'mux': [], 'muxerr': 0,
+                               'plain': [o['v'] for o in r['out']], 'plainend': r['end'],
+                               'plainerr': 0 if r['end'] != 'error' else max(1, r['endstep'])})
+            traces.append({'pipe': [op], 'modeled': True, 'oracle': 'plain-sem', 'groups': groups})
+    judge_plain(V, 'C09', traces, stats)
 
 
 def extra_c08(V, rng, thorough, stats):
@@ -1079,7 +1150,7 @@ PROPS = {
                 rule='at least one window closed by a timeout or a closing item'),
     'C08': dict(cases=cases_c08, relevant=relevant_c08, nontrivial=nontrivial_c08, lsc=[], extra=extra_c08,
                 rule='branches emitting different numbers of items'),
-    'C09': dict(cases=cases_c09, relevant=relevant_c09, nontrivial=nontrivial_c09, lsc=['int'],
+    'C09': dict(cases=cases_c09, relevant=relevant_c09, nontrivial=nontrivial_c09, lsc=['int'], extra=extra_c09,
                 rule='two keys with items alive in one run, or a re-used key slot'),
     'C10': dict(cases=cases_c10, relevant=relevant_c10, nontrivial=nontrivial_c10, lsc=['seq', 'int'], extra=extra_c10,
                 rule='a key with at least two items'),
